@@ -31,7 +31,7 @@ PROPS = {
     "C09": {"level": "exploration", "stages": ["native", "fvbuild"]},
     "C10": {"level": "exploration", "stages": ["native", "constrained"]},
     "C11": {"level": "fault_enumeration", "stages": ["native", "nohooks", "constrained", "miri"], "thorough_extra": ["fuzz", "dbgassert"]},
-    "C12": {"level": "exploration", "stages": ["native"], "thorough_extra": ["miri"]},
+    "C12": {"level": "exploration", "stages": ["native", "fvbuild"], "thorough_extra": ["miri"]},
     "C13": {"level": "exploration", "stages": ["native"]},
     "C14": {"level": "exploration", "stages": ["c14"]},
     "C15": {"level": "exploration", "stages": ["c15"]},
